@@ -2,6 +2,15 @@
 
 package stats
 
+// VerifStartWithoutFlusher is Start without the periodic flush goroutine: the
+// HTTP handlers are registered, and the harness calls VerifFlush itself at the
+// points where the goroutine would find that the hour has changed.  (Two
+// concurrent flushers, which the real program never has, would race on the
+// unit identifier that flush reads before it takes the locks.)
+func VerifStartWithoutFlusher(s Interface) {
+	s.(*StatsCtx).initWeb()
+}
+
 // VerifFlush performs one iteration of the periodic flush: if the unit
 // identifier generator (Config.UnitID) yields another hour than the current
 // unit's, the current unit is written to the database and a new one starts.
